@@ -246,6 +246,36 @@ fn ac_on_purge() {
     kani::cover!(r.is_ok() && n == 2 && q[0].dead.is_none() && q[1].dead.is_none(), "both purged");
 }
 
+/// D9 (KNOWN FINDING, see known_findings.txt): a bulk put that carries the SAME id twice with the newer document FIRST.
+/// Both documents pass `will_apply` (it is evaluated against the state before the batch), storage is handed both in request
+/// order and ends on the OLDER one, the set is fed in stamp order and ends on the NEWER one. Concrete history on a blank node
+/// (empty set, empty store), stamps symbolic with t_new > t_old, storage succeeds. Demonstrated on the real actor over the
+/// crate's own MemStore in notes/D9_demo.diff. This obligation FAILS on the pinned tree by design and is reported as KNOWN-FINDING;
+/// the bulk contracts ab_on_multi_set / ab_on_multi_del + lemmas_bulk decide every batch in which each id occurs at most once.
+#[kani::proof]
+#[kani::unwind(4)]
+fn ac_bulk_dup_id() {
+    let mut a = KeyspaceActor {
+        name: Cow::Borrowed("ks"),
+        clock: Clock,
+        storage: Arc::new(GhostStore::empty()),
+        state: OrSWotSet::default(),
+        change_timestamp: Arc::new(AtomicCell::new(HLCTimestamp::from_u64(0))),
+    };
+    let k: Key = kani::any();
+    let t_new = HLCTimestamp::havoc();
+    let t_old = HLCTimestamp::havoc();
+    kani::assume(t_old < t_new);
+    let mut docs = DocVec::new();
+    docs.push(doc(k, t_new));
+    docs.push(doc(k, t_old));
+    let r = (a.on_multi_set(MultiSet { source: 0, docs, ctx: None, _marker: PhantomData }));
+    kani::assume(r.is_ok());
+    let q = key_view(&a, k);
+    kani::cover!(q.live == Some(t_new.as_u64()), "the set holds the newer document");
+    assert!(q.live == q.doc, "D9: after a bulk put carrying one id twice, newer document first, the set and the store hold the same stamp for that id");
+}
+
 /// on_diff (C05, the actor's side of the repair exchange): the reply is EXACTLY the difference the set computes
 /// against the peer's state -- `changes` = the peer's live entries this replica lacks, `removals` = the peer's
 /// tombstones it lacks, each with the peer's stamp, nothing dropped, nothing added -- and the replica is unchanged.
